@@ -112,7 +112,7 @@ PROPS = {
     "C11": {
         "level": "exploration",
         "interpreters": PRODUCERS,
-        "rule": "all 2^18 subsets of the flag bits CPython defines (dis.COMPILER_FLAG_NAMES + __future__ compiler flags, read from CPython, not from the library) converted to names and back, in chunks of 64 words each run in a freshly forked child (enum's pseudo-member cache); every word with exactly one of the 14 unknown bits x subsets of known flags of size <=2 (thorough: x all 2^18); header alterations of 16 base code objects: co_flags XOR every mask of Hamming weight <=2 over 32 bits (529 each), and every (argcount, posonlyargcount, kwonlyargcount) triple in 0..min(len(varnames),4) x {0, each single flag bit} that types.CodeType accepts; and every name-carrying header entry (each variable/cell/free/global name, co_name, co_filename) replaced in turn by '', a non-identifier and a lone surrogate. Oracle: from_code raises or to_code() is strictly identical to the altered object. distinct_nontrivial = distinct flag words + distinct (base, alteration) pairs built.",
+        "rule": "all 2^18 subsets of the flag bits CPython defines (dis.COMPILER_FLAG_NAMES + __future__ compiler flags, read from CPython, not from the library) converted to names and back, in chunks of 64 words each run in a freshly forked child (enum's pseudo-member cache); every word with exactly one of the 14 unknown bits x subsets of known flags of size <=2 (thorough: x all 2^18); header alterations of 16 base code objects: co_flags XOR every mask of Hamming weight <=2 over 32 bits (529 each), and every (argcount, posonlyargcount, kwonlyargcount) triple in 0..min(len(varnames),4) x {0, each single flag bit} that types.CodeType accepts; and every name-carrying header entry (each variable/cell/free/global name, co_name, co_filename) replaced in turn by '', a non-identifier and a lone surrogate. ; negative words (bit 31 as a negative int, -1, -2); for base objects that are nested, the fields code.__eq__ ignores (co_stacksize, co_filename, line table) of the nested object altered and the parent converted right after the unaltered parent. Oracle: from_code raises or to_code() is strictly identical to the altered object. distinct_nontrivial = distinct flag words + distinct (base, alteration) pairs built.",
         "assumptions": TRUST,
         "required_reach": {"quick": ["word-ok", "unknown-bit-raises", "reproduced", "from_code-raises"]},
         "shards": {"quick": 16, "thorough": 16},
@@ -120,9 +120,9 @@ PROPS = {
     "C10": {
         "level": "model_checking",
         "interpreters": PRODUCERS,
-        "rule": "abstract line programs = sequences (length <=2; thorough also length 3 over reduced alphabets) of steps (bytecode delta in {2,4,252,254,256,258,508,510,512,764,1020} (+0 for lnotab), line delta in {0,+-1,+-127,+-128,+-129,+-254,255,-256,-257,381,-384} (thorough: also +-126,+-253,-255,+256) | no-line (3.10)), x tail {trailing entry, 2, 300 bytes} for lnotab, emitted through executable models of CPython's assemblers (assemble_lnotab 3.7/3.8/3.9 variants, 3.10 assemble_line_range) into real code objects; plus programs whose statements carry chosen line numbers and bytecode lengths compiled by the real compiler (AST route); plus every table of the program grammar (thorough: and of the stdlib). states = distinct (table, code length, first line) triples judged; transitions = codec stage applications; traces_validated_against_impl = model traces whose table CPython's own reader (PyCode_Addr2Line) read back exactly as the line program says + compile()-realizable programs where the model's bytes equal the real assembler's table.",
+        "rule": "abstract line programs = sequences (length <=2; thorough also length 3 over reduced alphabets) of steps (bytecode delta in {2,4,252,254,256,258,508,510,512,764,1020} (+0 for lnotab), line delta in {0,+-1,+-127,+-128,+-129,+-254,255,-256,-257,381,-384} (thorough: also +-126,+-253,-255,+256) | no-line (3.10)), x tail {trailing entry, 2, 300 bytes} for lnotab, emitted through executable models of CPython's assemblers (assemble_lnotab 3.7/3.8/3.9 variants, 3.10 assemble_line_range) into real code objects; plus programs whose statements carry chosen line numbers and bytecode lengths compiled by the real compiler (AST route); plus every table of the program grammar (thorough: and of the stdlib). Every real table and every model table on code of <= 520 bytes also goes through a full CodeData.from_code/to_code round trip of the object carrying it. states = distinct (table, code length, first line) triples judged; transitions = codec stage applications; traces_validated_against_impl = model traces whose table CPython's own reader (PyCode_Addr2Line) read back exactly as the line program says + compile()-realizable programs where the model's bytes equal the real assembler's table.",
         "assumptions": TRUST + ["the 3.10 continuation rule for no-line runs longer than 254 bytes ((254,-128) chunks) cannot be produced by compile(); it is bound to CPython by read-back through PyCode_Addr2Line only"],
-        "required_reach": {"quick": ["table:no-line-long@3.10", "table:no-line@3.10", "table:split-bytes", "table:split-line", "table:zero-width", "table:backward", "table:zero-delta-entry@3.7,3.8", "model-conforms-to-compile", "table-ok:model", "table-ok:real"]},
+        "required_reach": {"quick": ["table:no-line-long@3.10", "table:no-line@3.10", "table:split-bytes", "table:split-line", "table:zero-width", "table:backward", "table:zero-delta-entry@3.7,3.8", "model-conforms-to-compile", "table-ok:model", "table-ok:real", "codedata-roundtrip-ok"]},
     },
     "C08": {
         "level": "exploration",
